@@ -390,7 +390,9 @@ let single_insert_ops = ["insert"; "tryinsert"; "entry_or_insert"; "entry_insert
 let churn_ops = ["insert"; "remove"; "removeentry"; "get"; "getkv"; "contains"; "getmut"; "tryinsert"; "entry_or_insert"; "entry_insert";
                  "entry_remove"; "entry_and_modify"; "entry_drop"; "len"; "capacity"; "allocsize"; "iter"; "iterfold";
                  "tinsertunique"; "tfindentryremove"; "tremovereinsert"; "tentryinsert"; "tentryorinsert"; "tentrydrop"; "tfind"; "tfindmut"; "titer"; "tlen"; "titerhash";
-                 "sinsert"; "sremove"; "stake"; "sreplace"; "sget"; "sgetorinsert"; "contains"]
+                 "sinsert"; "sremove"; "stake"; "sreplace"; "sget"; "sgetorinsert"; "contains";
+                 "entry_replace"; "entry_and_replace"; "raw_replace"; "raw_and_replace"; "raw_or_insert"; "raw_insert"; "raw_remove"; "raw_get";
+                 "eref_or_insert"; "eref_insert"; "eref_drop"]
 
 let capacity_oracles (say : string -> unit) (where : string) (gw : int) (tsize : z) (calign : z)
     (opws : string list) (pre : dump) (post : dump) (ret_s : string) (ev_s : string) (arm : string)
@@ -1053,11 +1055,12 @@ let () =
            incr c_checked;
            let step t o = map_step cfg.backend cfg.tsize cfg.talign cfg.needs_drop rehash_guard_unconditional
                     (hash_of panic_key) refuse t o in
-           (* rustc_entry reserves room for one element as soon as the key is found absent
-              (HashMap::rustc_entry), then inserts without growing: reserve(1) ; entry operation *)
+           (* rustc_entry / raw_entry_mut / raw_entry are separate code paths in the library and separate
+              model code (Model/Entry2.v: rustc_step with insert_no_grow, raw_step, raw_get), proved equal to
+              the HashMap::entry composition in Properties/C14e.v; level C runs the code-shaped model *)
            let is_rentry = String.length opname > 7 && String.sub opname 0 7 = "rentry_" in
-           let key_absent = is_rentry && (match step tpre (OpContains (zs (List.nth opws 1))) with
-             | Ok ((_, OutBool false), _) -> true | _ -> false) in
+           let is_rawe = List.mem opname ["raw_or_insert"; "raw_insert"; "raw_remove"; "raw_get"] in
+           let zarg i = zs (List.nth opws i) in
            let model_result =
              if opname = "fromiter" then
                (* FromIterator: with_capacity(size_hint().0) ; insert each ; the old map is dropped afterwards *)
@@ -1079,16 +1082,21 @@ let () =
                          | Fail e -> Fail e
                          | Ok (_, evd) -> bump branch "from_iter"; Ok ((t1, OutUnit), evs @ evd))))
                 | _ -> Fail UB_unreachable)
-             else if key_absent then
-               (match step tpre (OpReserve (zi 1)) with
-                | Fail e -> Fail e
-                | Ok ((t1, o1), evs1) ->
-                  bump branch "rustc_entry_vacant";
-                  if o1 = OutUnwind then Ok ((t1, o1), evs1)
-                  else if opname = "rentry_drop" then Ok ((t1, OutBool false), evs1)
-                  else (match step t1 op with
-                    | Fail e -> Fail e
-                    | Ok ((t2, o2), evs2) -> Ok ((t2, o2), evs1 @ evs2)))
+             else if is_rentry then begin
+               bump branch "rustc_entry_model";
+               let act = (match opname with
+                 | "rentry_or_insert" -> ActOrInsert (zarg 3) | "rentry_insert" -> ActInsert (zarg 3)
+                 | "rentry_remove" -> ActRemoveEntry | _ -> ActDrop) in
+               rustc_step cfg.backend cfg.tsize cfg.talign cfg.needs_drop rehash_guard_unconditional (hash_of panic_key) refuse tpre (zarg 1) (zarg 2) act
+             end else if is_rawe then begin
+               bump branch "raw_entry_model";
+               if opname = "raw_get" then raw_get cfg.backend (hash_of panic_key) tpre (zarg 1)
+               else
+                 let act = (match opname with
+                   | "raw_or_insert" -> RActOrInsert (zarg 1, zarg 2, zarg 3) | "raw_insert" -> RActInsert (zarg 1, zarg 2, zarg 3)
+                   | _ -> RActRemoveEntry) in
+                 raw_step cfg.backend cfg.tsize cfg.talign cfg.needs_drop rehash_guard_unconditional (hash_of panic_key) refuse tpre (zarg 1) act
+             end
              else step tpre op in
            (match model_result with
             | Fail e ->
